@@ -206,6 +206,10 @@ class WorldGen:
         if self.has("double_space") and r.random() < 0.4:
             sep = "  "
         line = kind + sep + " ".join(parts[1:] + body)
+        if self.has("double_space") and len(body) >= 2 and r.random() < 0.35:
+            # irregular spacing INSIDE the text (two spaces after a full stop, aligned columns)
+            i = r.randrange(1, len(body))
+            line = kind + sep + " ".join(parts[1:] + body[:i]) + "  " + " ".join(body[i:])
         lines = [line]
         if self.has("multiline") and r.random() < 0.4:
             for _ in range(r.randint(1, 3)):
@@ -220,6 +224,8 @@ class WorldGen:
                     lines.append(f"  * bp{r.randrange(3)}:: " + " ".join(r.choice(PLAIN) for _ in range(r.randint(1, 3))))
                 else:
                     lines.append("  * " + r.choice(PLAIN))
+            if self.has("double_space") and r.random() < 0.2:
+                lines[0] = lines[0] + " "  # trailing space on the first line of a multi-line item
         return lines
 
     def block(self, lo: int = 1, hi: int = 4) -> list[str]:
